@@ -28,7 +28,26 @@ DIAMOND = engine([('a', []), ('b', ['a']), ('c', ['a']), ('d', ['b', 'c'])])
 TWOROOTS = engine([('a', []), ('b', []), ('c', ['a', 'b'])])
 # two roots, a long and a short path to the same sink
 VEE = engine([('a', []), ('b', []), ('c', ['b']), ('d', ['a', 'c'])])
-ENGINES = {'chain3': CHAIN3, 'diamond': DIAMOND, 'tworoots': TWOROOTS, 'vee': VEE}
+
+
+def algmv(name, deps, nvals):
+    '''deps: list of (parent algorithm, index of the parent's value that is declared)'''
+    return {'name': name,
+            'svs': [{'name': 's', 'vals': [('v%d' % k, (1, 0, 0)) for k in range(nvals)]}],
+            'deps': [('v', 'p', 'task', d, 's', 'v%d' % k) for d, k in deps], 'fb': []}
+
+
+def engine_mv(spec):
+    return {'pkgs': {'p': {'task': [algmv(n, d, k) for n, d, k in spec]}}}
+
+
+# several values per algorithm, a child declares only some of them
+# (= ex_mv of coq/Props/C02.v)
+MV1 = engine_mv([('a', [], 2), ('b', [('a', 0)], 1), ('c', [('a', 1)], 2), ('d', [('b', 0), ('c', 1)], 1)])
+# two roots; c declares one value of each; d declares c's second and a's second value
+MV2 = engine_mv([('a', [], 2), ('b', [], 1), ('c', [('a', 0), ('b', 0)], 2), ('d', [('c', 1), ('a', 1)], 2),
+                 ('e', [('c', 0)], 1)])
+ENGINES = {'chain3': CHAIN3, 'diamond': DIAMOND, 'tworoots': TWOROOTS, 'vee': VEE, 'mv1': MV1, 'mv2': MV2}
 
 # The model image of the open finding endstate-stale (= C02_endstate_refuted in
 # coq/Props/C02.v): roots a (0), b (1); c (2) reads b; d (3) reads a and c.
@@ -113,11 +132,12 @@ def model_eval(ctx, results):
         # failure its run IS the run of Flow.v (Proofs/Flow2Inv.v frun_all2_embed)
         exprs.append('let c := %s in let es := %s in let g := frun_all2 c (finit2 c) es in let f := fs g in '
                      '(ftrace2 c (finit2 c) es, store_dump f, quiescent c f, stale_values c f, '
-                     'nonoverlap2 c (finit2 c) es, wd_units g, locally_stale c f)' % (c, es))
-    vals = ctx.coq_eval(['DV.Model.Sched', 'DV.Model.Flow', 'DV.Model.Flow2'], exprs, z_scope=False, chunk=8)
+                     'nonoverlap2 c (finit2 c) es, wd_units g, locally_stale c f, flow_ok_mv c, flow_ok c)' % (c, es))
+    vals = ctx.coq_eval(['DV.Model.Sched', 'DV.Model.Flow', 'DV.Model.Flow2', 'DV.Proofs.FlowInv',
+                         'DV.Proofs.Flow3Inv'], exprs, z_scope=False, chunk=8)
     out = []
     for v in vals:
-        tr, dump, q, stale, nov, wdu, lst = v
+        tr, dump, q, stale, nov, wdu, lst, okmv, ok1 = v
         obs = []
         for (que, nodes, cluster, nxt) in tr:
             obs.append({'que': que,
@@ -126,7 +146,7 @@ def model_eval(ctx, results):
         store = sorted(([r, t, vn, content_py(cn)] for r, t, vn, cn in dump), key=lambda e: e[:3])
         out.append({'obs': obs, 'store': store, 'quiescent': q, 'stale': sorted(list(x) for x in stale),
                     'nonoverlap': nov, 'wd': sorted(list(x) for x in wdu),
-                    'lstale': sorted(list(x) for x in lst)})
+                    'lstale': sorted(list(x) for x in lst), 'in_class_mv': okmv, 'in_class_single': ok1})
     return out
 
 
@@ -316,9 +336,16 @@ FAIL2 = {
 }
 
 
-def gen_cases(ctx, n, profile, label):
+# several values per algorithm (= ex_mv / ex_fail_hist2 of coq/Props/C02.v): c fails, then all succeed
+MVFAIL = {
+    'name': 'directed-fail-multivalue', 'desc': MV1, 'targets': ['T1'],
+    'events': FAIL1['events'],
+}
+
+
+def gen_cases(ctx, n, profile, label, names=None):
     cases = []
-    names = ['vee', 'tworoots', 'diamond', 'chain3']
+    names = names or ['vee', 'tworoots', 'diamond', 'chain3']
     for i in range(n):
         rng = random.Random('%s:%s:%d' % (ctx.seed, label, i))
         en = names[i % len(names)] if i < len(names) else rng.choice(names)
@@ -330,7 +357,7 @@ def gen_cases(ctx, n, profile, label):
 
 
 def gen_fail_cases(ctx, n):
-    cases = gen_cases(ctx, n, 'nonoverlap', 'flow-fail')
+    cases = gen_cases(ctx, n, 'nonoverlap', 'flow-fail', ['mv1', 'vee', 'mv2', 'diamond', 'tworoots'])
     for i, c in enumerate(cases):
         c['pfail'] = 0.3
         c['maxchg'] = 4
@@ -341,12 +368,13 @@ def gen_fail_cases(ctx, n):
 def study(ctx):
     '''returns (n histories, nontrivial keys)'''
     ctx.trust('Flow.v + drive_flow.py correspondence (fakes: in-memory AE packages whose run() stores a canonical text of what was loaded, db socket hop short-circuited, lock stubs, fsm stub, md5sum/sha1sum answered by hashlib after the first real calls agreed)')
-    ctx.assume('worker hand-out, archive trigger, failures, analyses/regressions and promotion are outside Model/Flow.v; the end-state theorem is about task-only engines with one value per algorithm')
+    ctx.assume('worker hand-out, archive trigger, analyses/regressions, feedback and promotion are outside Model/Flow.v / Flow2.v; a failed run is an algorithm that raises before it updates its data set (nothing stored); the end-state theorems are about task-only engines (one or several values per algorithm, every value computed from all declared inputs) and non-overlapping change events')
     w = dict(WITNESS, events=witness_events())
     cases = [w, HIGHER, THREE]
     cases += gen_cases(ctx, ctx.n(2, 12), 'nonoverlap', 'flow-no')
     cases += gen_cases(ctx, ctx.n(1, 12), 'overlap', 'flow-ov')
-    cases += [FAIL1, FAIL2] + gen_fail_cases(ctx, ctx.n(2, 16))
+    cases += [FAIL1, FAIL2, MVFAIL] + gen_fail_cases(ctx, ctx.n(2, 16))
+    cases += gen_cases(ctx, ctx.n(1, 8), 'nonoverlap', 'flow-mv', ['mv2', 'mv1'])
     res = ctx.harness('drive_flow.py', {'cases': cases}, timeout=3000)['cases']
     for c, r in zip(cases, res):
         r['name'] = c['name']
@@ -361,6 +389,9 @@ def study(ctx):
             ctx.broken('drive_flow.py: the hashlib stand-in disagrees with md5sum/sha1sum', r['name'],
                        {'source': 'flow', 'case': r['name']})
         mm = first_mismatch(r, m)
+        if not m['in_class_mv']:
+            ctx.broken('flow: the engine of history %s is outside the class flow_ok_mv of the end-state theorems'
+                       % r['name'], json.dumps(r['graph']), {'source': 'flow', 'case': r['name']})
         wf = has_fail(r)
         bad = oracle_fail(r) if wf else oracle(r)
         ov = overlapping(r)
@@ -395,6 +426,8 @@ def study(ctx):
         nchg = sum(1 for e in r['events'] if e[0] == 'chg')
         if nchg >= 2 and nruns >= 4 and r['quiescent']:
             keys.append('flow:' + r['name'])
+        if m['in_class_mv'] and not m['in_class_single'] and r['quiescent'] and nruns >= 4:
+            keys.append('flow-mv:' + r['name'])
         if wf and r['quiescent'] and nruns >= 3 and any(
                 e[0] == 'fail' and o.get('failed') and len(below(r['graph'], o['failed'][0])) > 1
                 for e, o in zip(r['events'], r['obs'])):
@@ -417,6 +450,7 @@ def study(ctx):
     ctx.note('flow_events', sum(len(r['events']) for r in res))
     ctx.note('flow_runs_through_real_store', sum(1 for r in res for e in r['events'] if e[0] == 'run'))
     ctx.note('flow_failed_runs_through_real_worker', sum(1 for r in res for e in r['events'] if e[0] == 'fail'))
+    ctx.note('flow_histories_multivalue_engines', sum(1 for m in model if m['in_class_mv'] and not m['in_class_single']))
     ctx.note('flow_histories_with_failures', sum(1 for r in res if has_fail(r)))
     ctx.note('flow_units_withdrawn_at_end', sum(len(withdrawn(r)) for r in res if has_fail(r)))
     ctx.note('flow_overlapping_histories', sum(1 for r in res if overlapping(r)))
